@@ -1461,3 +1461,85 @@ Proof.
   exists ("", "x"), [], [], [TStart ("", "x") []; TEnd ("", "x")].
   repeat split; vm_compute; reflexivity.
 Qed.
+
+(** * Several readers of one value are independent state machines *)
+
+Lemma nth_error_set_nth_eq {A : Type} (l : list A) i x y :
+  nth_error l i = Some y -> nth_error (set_nth i x l) i = Some x.
+Proof.
+  revert i. induction l as [|z r IH]; intros [|i] H; cbn in *; try discriminate; [reflexivity|].
+  now apply IH.
+Qed.
+
+Lemma nth_error_set_nth_neq {A : Type} (l : list A) i j x :
+  i <> j -> nth_error (set_nth i x l) j = nth_error l j.
+Proof.
+  revert i j. induction l as [|z r IH]; intros [|i] [|j] H; cbn; try reflexivity; try congruence.
+  apply IH. congruence.
+Qed.
+
+(** The product run projects to each single run: what reader [i] delivers in a
+    run of several readers is what it delivers when it makes the same number of
+    calls alone. *)
+Lemma run_product_projects rs sched i r :
+  nth_error rs i = Some r ->
+  map snd (filter (fun p => Nat.eqb (fst p) i) (run_product rs sched))
+  = run1 (count_occ Nat.eq_dec sched i) r.
+Proof.
+  revert rs r. induction sched as [|j s IH]; intros rs r Hr; [reflexivity|].
+  cbn [run_product count_occ].
+  destruct (Nat.eq_dec j i) as [->|Hne].
+  - rewrite Hr. cbn [run1]. destruct (call r) as [c r'] eqn:Ec.
+    cbn [filter fst]. rewrite Nat.eqb_refl. cbn [map snd]. f_equal.
+    apply IH. eapply nth_error_set_nth_eq; eassumption.
+  - destruct (nth_error rs j) as [rj|] eqn:Ej.
+    + destruct (call rj) as [c rj'].
+      cbn [filter fst]. apply Nat.eqb_neq in Hne as Hb. rewrite Hb.
+      apply IH. rewrite nth_error_set_nth_neq by exact Hne. exact Hr.
+    + apply IH. exact Hr.
+Qed.
+
+(** [k] calls on a reader that still has [l] to deliver (and does not panic):
+    the first [k] of [l], then io.EOF. *)
+Lemma run1_remaining k : forall r l m,
+  remaining r = (l, false) -> k <= m ->
+  run1 k r = firstn k (map CTok l ++ repeat CEof m).
+Proof.
+  induction k as [|k IH]; intros r l m Hr Hm; [reflexivity|].
+  cbn [run1]. unfold call. pose proof (next_remaining r) as N.
+  destruct (next r) as [t r'|r'|].
+  - rewrite Hr in N. destruct (remaining r') as [l' p'] eqn:Er'.
+    unfold tr_app, tr_one in N. cbn [fst snd] in N. injection N as -> <-.
+    cbn [map app firstn]. f_equal. apply (IH r' l' m Er'). lia.
+  - destruct N as [N ->]. rewrite Hr in N. unfold tr_nil in N. injection N as ->.
+    cbn [map app]. destruct m as [|m']; [lia|]. cbn [repeat firstn]. f_equal.
+    rewrite (IH r [] m' Hr) by lia. reflexivity.
+  - rewrite Hr in N. unfold tr_panic in N. discriminate.
+Qed.
+
+(** Every reader of a captured value, whatever other readers of the same value
+    do in between, delivers the token stream of the tree and then io.EOF. *)
+Lemma run_product_captured t n sched i :
+  i < n ->
+  map snd (filter (fun p => Nat.eqb (fst p) i)
+             (run_product (repeat (Reader (raw_of t) false false 0 None) n) sched))
+  = firstn (count_occ Nat.eq_dec sched i)
+           (map (fun x => CTok (Some x)) (tokens t) ++ repeat CEof (count_occ Nat.eq_dec sched i)).
+Proof.
+  intros Hi.
+  rewrite (run_product_projects _ sched i (Reader (raw_of t) false false 0 None)).
+  2:{ apply nth_error_repeat. exact Hi. }
+  rewrite (run1_remaining _ _ (map Some (tokens t)) (count_occ Nat.eq_dec sched i)).
+  - now rewrite map_map.
+  - rewrite remaining_fresh by apply r_out_raw_of. apply stream_raw_of.
+  - lia.
+Qed.
+
+(** Kept copies: a sequence of captures is judged copy by copy. *)
+Lemma seq_agree_implies_spec_ok l :
+  (forall p, In p l -> input_wf (fst p) = true /\ doc_kf (fst p) = false /\ doc_kf_in (fst p) = false) ->
+  seq_agrees l = true -> seq_spec_ok l = true.
+Proof.
+  unfold seq_agrees, seq_spec_ok. rewrite !forallb_forall. intros Hwf H p Hp.
+  destruct (Hwf p Hp) as [A [B C]]. apply doc_agree_implies_spec_ok; auto.
+Qed.
